@@ -158,12 +158,12 @@ Section MFacts.
     - (* deliver *) injection F as <- <-.
       destruct se as [f0|]; [exact IM|]. destruct IM as [E (M & G & W)]. exfalso. cbn [ws] in W.
       apply (W f). apply in_or_app. right. now left.
-    - (* add ok *) rewrite H in F. injection F as <- <-.
+    - (* add ok *) match goal with Ha : add_ok _ = _ |- _ => rewrite Ha in F end. injection F as <- <-.
       destruct se as [f0|].
       + destruct IM as [E Hin]. split; [|exact Hin]. cbn [merged rev] in *.
         rewrite map_app. unfold dir_state in *. rewrite fold_left_app. cbn [map fold_left]. now rewrite <- E.
       + destruct IM as [E (M & G & W)]. exfalso. now apply (G f).
-    - (* add err *) rewrite H in F. injection F as <- <-.
+    - (* add err *) match goal with Ha : add_ok _ = _ |- _ => rewrite Ha in F end. injection F as <- <-.
       destruct se as [f0|]; [exact IM|]. destruct IM as [E (M & G & W)]. exfalso. now apply (G f).
     - injection F as <- <-. exact IM.
     - injection F as <- <-. exact IM.
@@ -351,8 +351,8 @@ Section OneWorker.
     - unfold after_parse in *. destruct (parse p) as [| |f] eqn:P; try (injection F as <- <-; now left).
       destruct se as [f0|]; injection F as <- <-; [now left|]. right.
       repeat split; auto. exists f. split; [reflexivity|]. cbn [ws]. apply in_or_app. right. now left.
-    - rewrite H in F. injection F as <- <-. now left.
-    - rewrite H in F. injection F as <- <-. now left.
+    - match goal with Ha : add_ok _ = _ |- _ => rewrite Ha in F end. injection F as <- <-. now left.
+    - match goal with Ha : add_ok _ = _ |- _ => rewrite Ha in F end. injection F as <- <-. now left.
   Qed.
 
   Definition InvOne (paths : list N) (s : mstate) : Prop :=
